@@ -293,6 +293,20 @@ def main_check(check, argv=None):
     matchers = check.known_matchers()
     nviol = 0
     known_hit = {}
+    # listed findings that carry their failing input: replay it (the generators stay away from these triggers so that
+    # a different violation of the same property is not drowned); a finding is reported only while it still fails
+    for k in known:
+        if k.get('status', 'open') == 'open' and k.get('repro'):
+            try:
+                kp = json.load(open(os.path.join(V, k['repro'])))
+                h, viol, _ = evaluate(check, kp['plan'])
+                if any(c == k.get('class') or k.get('class') == '*' for c, _ in viol):
+                    known_hit[k['what']] = known_hit.get(k['what'], 0) + 1
+                    print('KNOWN-FINDING: property=%s %s' % (check.pid, k['what']))
+                else:
+                    print('note: listed finding no longer reproduces (%s): %s' % (k['repro'], k['what'][:100]))
+            except (OSError, ValueError, KeyError) as e:
+                print('note: cannot replay listed finding %s: %s' % (k.get('repro'), e))
     reported = []
     os.makedirs(V + '/replays', exist_ok=True)
     for cls in sorted(agg['viol'])[:check.max_reported]:
